@@ -1,42 +1,65 @@
 #!/usr/bin/env python3
-"""Development aid: re-run the recorded checks of every archived seed against the current checks
-(patched scratch copy, VERIF_REPO) and update meta.json['checks'] / ['caught']. Does not redo the
-build/test/demo validation of the seed itself."""
-import glob, json, os, re, shutil, subprocess, sys, tempfile, time
+"""Development aid: re-run every archived seed against the current checks (patched scratch copy,
+VERIF_REPO). For each seed the checks recorded as catching it are run, the property's own first, until
+one reports a violation; the outcome goes to meta.json['recheck'] (the 'checks' table of the first
+ingestion is left alone). Seeds recorded as not caught (judged outside the statements) are run against
+their own check and must stay silent or not, either way they are only reported.
+   reseed_all.py [--shard i/n] [name-prefix ...]"""
+import glob, hashlib, json, os, re, shutil, subprocess, sys, tempfile, time
 env = dict(os.environ, GOFLAGS="-mod=mod", GOPROXY="off", GOSUMDB="off", GOTOOLCHAIN="local")
-only = sys.argv[1:]
-missed = []
-for mp in sorted(glob.glob("/verif/seeded/*/meta.json")):
+args = sys.argv[1:]
+shard = (0, 1)
+if args and args[0] == "--shard":
+    i, n = args[1].split("/")
+    shard = (int(i), int(n))
+    args = args[2:]
+missed, n_done = [], 0
+metas = sorted(glob.glob("/verif/seeded/*/meta.json"))
+for k, mp in enumerate(metas):
+    if k % shard[1] != shard[0]:
+        continue
     d = os.path.dirname(mp)
     m = json.load(open(mp))
-    if only and not any(m["name"].startswith(o) for o in only):
+    if args and not any(m["name"].startswith(o) for o in args):
         continue
-    checks = list(m.get("checks", {}).keys()) or [m["property"]]
+    rec = m.get("checks", {})
+    own = m["property"]
+    order = [own] if own in rec or not rec else []
+    order += [p for p, v in rec.items() if v.get("exit") == 1 and p != own]
+    order += [p for p in rec if p not in order and m.get("caught") is False]
+    if own not in order:
+        order.insert(0, own)
+    # own check first only if it was among the catchers; otherwise catchers first
+    catchers = [p for p in order if rec.get(p, {}).get("exit") == 1]
+    order = catchers + [p for p in order if p not in catchers]
     tmp = tempfile.mkdtemp(prefix="reseed-")
+    repo = os.path.join(tmp, "repo")
+    tag = hashlib.sha256(repo.encode()).hexdigest()[:10]
     try:
-        repo = os.path.join(tmp, "repo")
         subprocess.check_call(["rsync", "-a", "--exclude", ".git", "/repo/", repo + "/"])
         r = subprocess.run(["patch", "-p1", "-s", "-i", os.path.join(d, "patch.diff")], cwd=repo, capture_output=True, text=True)
         if r.returncode:
-            print(m["name"], "PATCH DOES NOT APPLY", r.stdout[:200]); missed.append(m["name"]); continue
+            print(m["name"], "PATCH DOES NOT APPLY", r.stdout[:200], flush=True); missed.append(m["name"]); continue
         res = {}
-        for p in checks:
+        for p in order:
             t0 = time.time()
             rr = subprocess.run(["./check", p], cwd="/verif", env=dict(env, VERIF_REPO=repo), capture_output=True, text=True)
             cls = sorted(set(re.findall(r"^\s+class=(\S+)", rr.stdout, re.M)))
-            res[p] = {"exit": rr.returncode, "violation_lines": len([l for l in rr.stdout.splitlines() if l.startswith("VIOLATION")]),
-                      "classes": cls[:12], "wall_s": round(time.time() - t0, 1), "summary": (rr.stdout.strip().splitlines() or [""])[-1][:200]}
-        m["checks"] = res
-        m["caught"] = any(v["exit"] == 1 for v in res.values())
-        m["rechecked"] = time.strftime("%Y-%m-%d %H:%M")
+            res[p] = {"exit": rr.returncode, "classes": cls[:6], "wall_s": round(time.time() - t0, 1)}
+            if rr.returncode == 1:
+                break
+        now_caught = any(v["exit"] == 1 for v in res.values())
+        m["recheck"] = {"when": time.strftime("%Y-%m-%d %H:%M"), "results": res, "caught": now_caught}
         json.dump(m, open(mp, "w"), indent=1)
-        print(m["name"], "caught" if m["caught"] else "MISSED", {k: v["exit"] for k, v in res.items()}, flush=True)
-        if not m["caught"]:
+        n_done += 1
+        state = "caught" if now_caught else ("silent (recorded as outside the statements)" if m.get("caught") is False else "MISSED")
+        print(m["name"], state, {k: v["exit"] for k, v in res.items()}, flush=True)
+        if not now_caught and m.get("caught") is not False:
             missed.append(m["name"])
     finally:
         shutil.rmtree(tmp, ignore_errors=True)
         for f in os.listdir("/verif/harness"):
-            if f.startswith("go.alt-"):
+            if f.startswith("go.alt-" + tag):
                 os.remove(os.path.join("/verif/harness", f))
-        subprocess.run("rm -f /verif/.bin/alt-*", shell=True)
-print("MISSED:", missed)
+        subprocess.run("rm -f /verif/.bin/alt-%s-*" % tag, shell=True)
+print("done:", n_done, "MISSED:", missed, flush=True)
